@@ -47,6 +47,8 @@ def remove_mm_fields_if_present(raw_block_hex, leave_btcblock=True, hex=True):
         block = rlp.decode(bytes.fromhex(raw_block_hex))
     except Exception as e:
         raise ValueError(e)
+    # Sanity validation: must be a list of byte strings
+    _assert_list_of_bytes(block)
     # Sanity validation: list length (w/wo/umm_root and/or mm fields)
     num_fields = len(block)
     if num_fields not in [17, 18, 19, 20]:
@@ -68,6 +70,11 @@ def remove_mm_fields_if_present(raw_block_hex, leave_btcblock=True, hex=True):
     return block_without_mm_fields_rlp.hex()
 
 
+def _assert_list_of_bytes(block):
+    if type(block) != list or not all(type(field) == bytes for field in block):
+        raise ValueError("Block header must be a list of byte strings")
+
+
 # Given a raw block hex, compute its block hash
 # and return it as a hex string
 def get_block_hash(raw_block_hex):
@@ -85,6 +92,8 @@ def get_coinbase_txn(raw_block_hex):
         block = rlp.decode(bytes.fromhex(raw_block_hex))
     except Exception as e:
         raise ValueError(e)
+    # Sanity validation: must be a list of byte strings
+    _assert_list_of_bytes(block)
     # Sanity validation: list length (w/wo/umm_root)
     num_fields = len(block)
     if num_fields not in [19, 20]:
